@@ -68,8 +68,8 @@ CONC = {
 # the duel families (harness/gen_duel.go) are a few milliseconds each
 SIZES = {"quick": {"deploy": 160, "pause": 160, "rollout": 128, "own": 240, "health": 160, "snap": 240,
                    "duelown": 3000, "dueldrain": 3000, "duelprobe": 1500},
-         "thorough": {"deploy": 4000, "pause": 4000, "rollout": 3000, "own": 4000, "health": 3000, "snap": 4000,
-                      "duelown": 40000, "dueldrain": 40000, "duelprobe": 20000}}
+         "thorough": {"deploy": 2000, "pause": 2000, "rollout": 1500, "own": 2000, "health": 1500, "snap": 2000,
+                      "duelown": 30000, "dueldrain": 30000, "duelprobe": 15000}}
 SIMS = {"quick": 30, "thorough": 500}
 MC_TIMEOUT = {"quick": 240, "thorough": 1500}
 DTRACE_LIMIT = {"quick": 96, "thorough": None}   # scenarios validated against the design model per run
